@@ -300,6 +300,15 @@ SPECS = [
     _spec("sel_prop_values", select=SelectPropertyValues("k"), order=(O.ALPHA,),
           sym={"0.pkey": "i0", "1.pkey": "i1", "0.pval": "i2", "1.pval": "i3"},
           dom={"i0": ["", "k", "j"], "i1": ["", "k", "j"], "i2": ["1", "2"], "i3": ["1", "2"]}),
+    _spec("sel_area_alpha_grouped", select=S.AREA, order=(O.ALPHA,), group=(G.FILE,),
+          sym={"0.area": "i0", "1.area": "i1", "2.area": "i2", "2.path": "i3"},
+          dom={"i0": ["z", "a"], "i1": ["m", "a"], "i2": ["a", "z"], "i3": R(0, 1)}, n=3, base={"0.body": "c", "1.body": "b", "2.body": "a"}),
+    _spec("sel_links_alpha_grouped2", select=S.LINKS, order=(O.ALPHA,), group=(G.NOTE_TYPE, G.FILE),
+          sym={"0.link": "i0", "1.link": "i1", "1.kind": "i2"}, dom={"i0": ["zeta", "alpha"], "i1": ["mid", "alpha"], "i2": [0, 1]},
+          base={"0.body": "z", "1.body": "a"}),
+    _spec("sel_propvalues_alpha_grouped", select=SelectPropertyValues("k"), order=(O.ALPHA,), group=(G.PRIORITY,),
+          sym={"0.pval": "i0", "1.pval": "i1", "1.pri": "i2"}, dom={"i0": ["9", "1"], "i1": ["5", "1"], "i2": [3, 4]},
+          base={"0.pkey": "k", "1.pkey": "k", "0.body": "z", "1.body": "a"}),
     _spec("sel_file", select=S.FILE, sym={"0.path": "i0", "1.path": "i1"}, dom={"i0": R(0, 1), "i1": R(0, 1)}),
     _spec("sel_count_note_grouped", select=SelectAggregation("count", S.NOTE), group=(G.NOTE_TYPE,),
           sym={"0.kind": "i0", "1.kind": "i1", "2.kind": "i2"}, dom={"i0": K6, "i1": K6, "i2": [0, 1, 2, 3]}, n=3),
